@@ -304,36 +304,81 @@ func c04DecoderPurity(ctx *core.Ctx, r *RT) {
 		}
 		ctx.Check(bad == "", "C04.S14", ssax.Name(fn)+" › returns a map of its own", fnPos(r, fn), "make(map) in the decoder, or the result of another decoder",
 			"the decoder hands out a map it did not make for this call ("+bad+"): the callers that add to a decoded map (addHeadersToFrame merges the new headers into it) fill the shared map, and every later decode of such a block returns headers that were never on the wire")
-		// S13
-		var content []ssa.Value
-		ssax.Instrs(fn, func(in ssa.Instruction) {
-			if cv, ok := in.(*ssa.Convert); ok {
-				if b, isB := cv.Type().Underlying().(*types.Basic); isB && b.Kind() == types.String {
-					if _, fromSlice := cv.X.Type().Underlying().(*types.Slice); fromSlice {
-						content = append(content, cv)
+		// S13 — the conversions may sit in an extracted helper (readString): the cone of
+		// the decoder is examined, and what such a helper returns is content in its caller
+		cone := localCone(fn, 2)
+		contentOf := map[*ssa.Function][]ssa.Value{}
+		returnsContent := map[*ssa.Function]bool{}
+		total := 0
+		for round := 0; round < 2; round++ {
+			for _, g := range cone {
+				var content []ssa.Value
+				ssax.Instrs(g, func(in ssa.Instruction) {
+					if cv, ok := in.(*ssa.Convert); ok {
+						if b, isB := cv.Type().Underlying().(*types.Basic); isB && b.Kind() == types.String {
+							if _, fromSlice := cv.X.Type().Underlying().(*types.Slice); fromSlice {
+								content = append(content, cv)
+							}
+						}
+					}
+					if call, ok := in.(*ssa.Call); ok {
+						if h := call.Call.StaticCallee(); h != nil && returnsContent[h] {
+							// only the string result(s) are content — not the offset or the error
+							// handed back next to them
+							if _, isTuple := call.Type().(*types.Tuple); isTuple {
+								for _, u := range *call.Referrers() {
+									if ex, ok := u.(*ssa.Extract); ok {
+										if b, isB := ex.Type().Underlying().(*types.Basic); isB && b.Kind() == types.String {
+											content = append(content, ex)
+										}
+									}
+								}
+							} else {
+								content = append(content, call)
+							}
+						}
+					}
+				})
+				contentOf[g] = content
+				if g != fn {
+					for _, vs := range ReturnedValues(g) {
+						for _, v := range vs {
+							if b, isB := v.Type().Underlying().(*types.Basic); !isB || b.Kind() != types.String {
+								continue
+							}
+							for _, cv := range content {
+								if dependsOn(v, cv, 0) {
+									returnsContent[g] = true
+								}
+							}
+						}
 					}
 				}
 			}
-		})
-		if len(content) == 0 {
-			continue
 		}
-		n13++
 		badC := ""
-		for _, b := range fn.Blocks {
-			if len(b.Instrs) == 0 {
-				continue
-			}
-			iff, ok := b.Instrs[len(b.Instrs)-1].(*ssa.If)
-			if !ok {
-				continue
-			}
-			for _, cv := range content {
-				if dependsOn(iff.Cond, cv, 0) {
-					badC = r.IPos(iff)
+		for _, g := range cone {
+			total += len(contentOf[g])
+			for _, b := range g.Blocks {
+				if len(b.Instrs) == 0 {
+					continue
+				}
+				iff, ok := b.Instrs[len(b.Instrs)-1].(*ssa.If)
+				if !ok {
+					continue
+				}
+				for _, cv := range contentOf[g] {
+					if dependsOn(iff.Cond, cv, 0) {
+						badC = r.IPos(iff)
+					}
 				}
 			}
 		}
+		if total == 0 {
+			continue
+		}
+		n13++
+		content := make([]ssa.Value, total)
 		ctx.Check(badC == "", "C04.S13", ssax.Name(fn)+" › no branch on the content of a decoded string", fnPos(r, fn), sprintf("%d decoded string(s), no condition depends on them", len(content)),
 			"a branch at "+badC+" depends on the bytes of a decoded header name or value (e.g. a UTF-8 validity test): a header map with such content, which the writer encodes without complaint, is rejected on reading — what was written does not read back")
 	}
